@@ -21,7 +21,7 @@ MIN_COUNTERS = {'quick': {'sanitized_children': 150, 'input_snapshots_compared':
 CASE_TIMEOUT = 400
 NPROC = 16
 RULE = ('each case = one radial_solver call in its own sanitized interpreter: (a) every layer stack of 1-2 layers (quick; 1-3 thorough) over {solid,liquid}x{static,dynamic}x'
-        '{compressible,incompressible} INCLUDING liquid surface layers, both nondimensionalize values; (b) degree l=1 on every such stack (singular surface systems) and one case per argument fault (bad/duplicate/too many solve_for, wrong '
+        '{compressible,incompressible} INCLUDING liquid surface layers, both nondimensionalize values, plus (quick) every pair of adjacent liquid layers below a solid lid; (b) degree l=1 on every such stack (singular surface systems) and one case per argument fault (bad/duplicate/too many solve_for, wrong '
         'types and lengths, unknown layer type / integrator, <=3 slices, unsorted or too small upper radii, empty / length-1 / non-contiguous arrays, each of the five arrays shorter or longer than the others, NaN/0/negative/inf '
         'in each material array and scalar, degree 0/1/255, rtol/atol 0/negative/NaN, step / RAM budgets 0/1/5 and budgets that run out in an upper layer, expected_size 0/1, max_step tiny/huge); (c) random pairwise combinations; '
         '(d) lifetime probes; non-trivial = the child produced an outcome record or died (both are observations); distinct by case hash')
@@ -79,6 +79,15 @@ def gen_cases(tier, seed):
             for nd in ((True, False) if (n < 3) else (bool(k % 2),)):
                 cases.append({'kind': 'stack', 'stack': [list(x) for x in st], 'nondim': nd, 'freq': 2e-4, 'kamata': True, 'id': k})
                 k += 1
+    if tier == 'quick':
+        # the quick tier enumerates 1-2 layer stacks only: add every pair of adjacent liquid layers (static/dynamic x static/dynamic) below a solid
+        # lid, with and without a solid core (the liquid-liquid branches of the interface code are unreachable in 1-2 layer stacks with a solid surface)
+        for s1 in (True, False):
+            for s2 in (True, False):
+                for core in (True, False):
+                    st = ([['solid', False, False]] if core else []) + [['liquid', s1, False], ['liquid', s2, False], ['solid', False, False]]
+                    cases.append({'kind': 'stack', 'stack': st, 'nondim': bool(k % 2), 'freq': 2e-4, 'kamata': True, 'id': k})
+                    k += 1
     base_stacks = [[['solid', False, False]], [['liquid', True, False], ['solid', False, False]], [['solid', True, False], ['liquid', False, False], ['solid', False, False]]]
     for fi, f in enumerate(FAULTS):
         for nd in (True, False) if tier == 'thorough' or fi % 2 == 0 else (True,):
